@@ -37,6 +37,10 @@ claim("C02", "structural operator-table match on the value-origin terms of each 
       "For every input: each of the 11 binary operators computes the reference Go operation with the left operand from expr.Left and the right from expr.Right (order free only when commutative), DIV & | ^ << >> on int64 conversions, % as math.Mod; a NULL operand returns NULL before conversion; unary - ~ ! tables; the projection loop appends exactly one projected row (or nested result) per input row and returns projection errors; output keys are the alias when non-empty else the column name, Ommit adds nothing, the output map is per-call; CASE yields the value of the first true WHEN, else ELSE, else NULL; the star copy cannot carry the <- key. Float values themselves are not computed.",
       NOTE, "DESIGN.md 2/C02")
 
+claim("C03", "per-iteration path counting of group formation and HAVING emission, key-map construction/membership-loop completeness, map-iteration-order lint, memo-key dependence, filtered-rows value flow, loop transfer functions of the registered aggregates (go/ssa)",
+      "For every input: each row is appended to exactly one group per iteration; the row's key map holds reader(row,k) for every grouping key and membership compares every key (an equal key continues); the output is never appended under a Go map range; the group's map carries its own members and is emitted iff HAVING is true; the aggregate memo key depends on the call, lookup and store agree; the all-aggregate branch and the aggregate evaluator use the filtered rows under \"*\" and COUNT(*) counts them; the functions registered as sum/avg/min/max have the reference per-member transfer (NULL skipped before conversion, acc+number, min keeps smaller, max larger) and result (all-NULL => NULL, avg = acc/count). Numeric values are not computed.",
+      NOTE, "DESIGN.md 2/C03")
+
 _pending = "rule set for this property is not implemented yet in this round (see DESIGN.md section 2 for the planned structural rules)"
 for p in ["C01","C02","C03","C04","C05","C06","C07","C09","C10","C11","C12","C13","C14","C15","C16","C17","C18","C19","C20"]:
     if p not in CLAIMED:
